@@ -1096,3 +1096,15 @@ def flood_retry_rejected():
     handlers = [['A', 'C', 'hC', [['ret', 'c']]], ['A', 'C', 'hC2', [['ret', 'c2']], {'sync': True}]]
     main = [['burst_swallow', 'A', 'C', 'n', 'C'], ['idle', 'A'], ['redispatch_rejected'], ['idle', 'A'], ['obs_all', 'end']]
     return dict(buses=['A'], ints={'n': [50, 54]}, reals={}, handlers=handlers, main=main, max_history={'A': 10}, horizon=5, rejections_expected=True)
+
+
+
+def expect_leaf_of_nested_chain():
+    """a pending expect('*', include=<the leaf only>) sees every generation of a nested chain P -> C -> G built from inside handlers
+    (its temporary handler takes part in all three levels and rejects the first two); the leaf is processed, its own handlers run,
+    and expect() returns it."""
+    handlers = [['A', 'P', 'hP', [['dispawait', 'A', 'C', 'C1'], ['ret', 'p']]], ['A', 'C', 'hC', [['sleep', 'd1'], ['dispawait', 'A', 'G', 'G1'], ['ret', 'c']]],
+                ['A', 'G', 'hG', [['sleep', 'd2'], ['ret', 'g']]]]
+    main = [['sleep', '1/100'], ['root', 'A', 'P', 'P1'], ['await', 'P1'], ['idle', 'A'], ['sleep', '1/2'], ['obs_all', 'end']]
+    return dict(buses=['A'], reals={'d1': ['0', '1/5'], 'd2': ['0', '1/5']}, handlers=handlers, main=main,
+                actors={'e': [['expect', 'A', '*', '2', 'G1']]}, horizon=6)
